@@ -244,7 +244,7 @@ def check_poly(ctx, case, ignore_known=False):
             lines += ["io write_gds l %s 199" % path, "io read_gds r %s 0 %s N" % (path, fl(1e-3))]
         else:
             lines += ["io write_oas l %s %s 6 0" % (path, fl(0)), "io read_oas r %s 0 %s" % (path, fl(1e-3))]
-        lines += ["hier get_flexpaths r.0 0 0 0 0 0 q"]
+        lines += ["hier get_flexpaths r.0 0 0 0 0 0 q", "dump lib r"]
     outs = ctx.run(lines, case)
 
     def fail(msg):
@@ -268,7 +268,26 @@ def check_poly(ctx, case, ignore_known=False):
             fail("re-loading the %s file failed with error %d" % (io, rd["err"]))
         # a simple path is stored as one PATH record per element: constant width (the first), centre line, end type
         const = all(abs(h - hw[0]) < 1e-12 for hw in hws for h in hw)
-        if const and all(e["end"] in (0, 1, 2, 3) for e in els):
+        no_record = io == "oas" and any(e["end"] == pm.E_ROUND for e in els)
+        if const and no_record and len(res) == 0:
+            # OASIS PATH records have no round end: such a path is not saved as PATH records but as its outline (one polygon
+            # per element, in element order), which must denote the same region
+            rpolys = [o for o in outs if isinstance(o, dict) and "lib" in o][0]["lib"]["cells"][0]["polygons"]
+            if len(rpolys) != nel:
+                fail("oas: a round-ended simple path with %d elements was saved as %d polygons and no PATH record" % (nel, len(rpolys)))
+            for i, e in enumerate(els):
+                try:
+                    m = pm.build(pts, hws[i], offs[i], dict(e), tol)
+                except pm.Degenerate:
+                    continue
+                sc = max(1.0, max(abs(c) for p in pts for c in p))
+                band = 3 * tol + 1e-9 * sc + 3e-3
+                n_in, n_out, bad = pm.probe(m, rpolys[i]["pts"], band)
+                ctx.stats.count("samples_path_record", n_in + n_out)
+                if bad:
+                    fail("oas: outline saved for element %d of a round-ended simple path (end %d): %s" % (i, e["end"], bad))
+            labels.append("path_as_outline_oas")
+        elif const and all(e["end"] in (0, 1, 2, 3) for e in els):
             if len(res) != nel:
                 fail("%s: %d paths re-loaded for %d elements of a simple path" % (io, len(res), nel))
             lines2 = []
@@ -284,10 +303,6 @@ def check_poly(ctx, case, ignore_known=False):
                 e2["join"] = max(e["join"], rel["join"]) if False else e["join"]
                 # the re-loaded path has its own join type: judge with the larger reach of the two by using undecidable joints
                 e3 = dict(e)
-                if io == "oas" and e["end"] == pm.E_ROUND and not ignore_known:
-                    # known finding C07-K1: OASIS PATH records have no round end; gdstk writes such a path flush
-                    e3["end"] = pm.E_FLUSH
-                    ctx.stats.count("known_C07-K1_round_end_judged_as_flush")
                 try:
                     m = pm.build(pts, hws[i], offs[i], e3, tol)
                 except pm.Degenerate:
